@@ -987,11 +987,13 @@ func main() {
 	sum := vh.NewSummary("unit: every (format, transport bytes/io x buffer 0,1,16,4096 x reader kind, ZeroCopy, driver operation, length 0/1/2/16/17/300) once; distinct by that tuple. " +
 		"api: random struct of typed and interface{} fields with strings, []byte, map keys, RawExt, Raw (5 formats x transports x ZeroCopy x InternString x decode options), leaves located by pointer range, then history oracle (decode on, reset onto other streams, reset, overwrite input); non-trivial = at least one non-empty leaf; distinct by (format, transport, ZeroCopy, InternString, set of flows, leaf count/4). " +
 		"enc: Canon snapshot before/after Encode; distinct by (format, scenario, options). " +
+		"recv (deterministic): 10 types whose encode callback writes to its receiver (Binary/Text/JSON marshalers, Selfer, MissingFielder; struct, int, string and array kinds; pointer and value receivers) x 25 position chains under the Encode argument (interface, pointer, slice, map value, map key, array, field and compositions) x NoAddressableReadonly x Canonical x (StructToArray, bytes/io) x 5 formats: with the option a value in a position that is not addressable in Go is bit-identical after Encode; non-trivial = a callback ran; distinct by (format, type, position, NoAddressableReadonly, Canonical). " +
 		"split: maps decoded by the reflection kMap (string/interface{}/named keys, non-fast-path value types) from a buffered reader delivering the stream in 2 or 3 pieces: every one-split and (short encodings: every, else sampled) two-split schedule x ReaderBufferSize 1,2,7,16,64 x ZeroCopy, compared with the []byte decode and re-compared after the Decoder moved on; distinct by (format, shape, buffer size, ZeroCopy). " +
 		"reset: container-valued maps / slices (fast-path and reflection map types, naked MapType/SliceType) decoded into a zero destination under all 8 MapValueReset x InterfaceReset x SliceElementReset vectors x 4 transports x ZeroCopy: equal to the default-options decode and no two positions sharing a map / overlapping slice memory / pointee; distinct by that tuple")
-	cv := vh.NewCases(*cases, "From Coq Require Import List NArith ZArith.\nFrom Verif Require Import C13.Model C13.Corr.\nImport ListNotations.", "case", "mismatches", 60)
+	cv := vh.NewCases(*cases, "From Coq Require Import List NArith ZArith.\nFrom Verif Require Import C13.Model C13.EncModel C13.Corr.\nImport ListNotations.", "case", "mismatches", 60)
 	id := 0
 	unitStream(*cases, cv, &id, sum)
+	recvStream(cv, &id, sum)
 	acases, rcases, scases := map[string]int{}, map[string]int{}, map[string]int{}
 	apiStream(r.Fork(), *nAPI, acases, rcases, scases, sum)
 	for _, k := range sortedKeys(acases) {
